@@ -4,6 +4,7 @@ from ..common import calls_in, norm, DF, VEC, kw
 from ..model import AnalysisError, body_nodes
 from ..dataflow import defs_reaching, comprehension_binding
 from ..facts import facts_at
+from ..pattern import pmatch, text
 from .shared import grd_empty, idx1, clamp_check, yields_of, row_index_of
 
 EXPLANATION = (
@@ -79,6 +80,7 @@ def check(ctx):
     ctx.rule("LEN", "boolean mask length is checked against nrow")
     ctx.rule("SIB-seen", "first-seen scan tests and records the key tuples themselves")
     ctx.rule("GRD-negslice", "no negated slice bound that can be 0")
+    ctx.rule("SIB-parse", "column-position parsers mirror the row-position parsers")
     ctx.rule("STATE", "the subsetting methods never read the grouping state an earlier group_by() left on the frame")
     n = 0
     for name, ops in list(KEEP.items()) + list(DROP.items()):
@@ -305,6 +307,64 @@ def check(ctx):
                                                          "drop_na", "sample", "unique")],
                   "succeeds on 0..N rows", only=lambda f: f.module.name == "dataiter.data_frame")
     ctx.note(f"{n} partial-operation site(s) reachable from the nine methods inside data_frame.py")
+    # ----------------------------------------------------------- SIB-parse
+    # the column-position parsers are the row-position parsers with ncol for nrow (slice/slice_off use both)
+    def _record(fn, size_attr):
+        """What a position parser does, as a record: element type of the conversion, the length check, what is returned."""
+        from ..forms import value_cases, resolve
+        P_ = fn.params[1] if len(fn.params) > 1 else None
+        rec = {}
+        rets = value_cases(fn, "return")
+        if len(rets) != 1 or P_ is None:
+            return None
+        rv = rets[0][1]
+        b = pmatch("Vector.fast(_E, _T)", rv)
+        if b is None:
+            return None
+        rec["out_type"] = text(b["_T"])
+        e = b["_E"]
+        bz = pmatch("np.nonzero(_M)[_K]", e)
+        rec["positions"] = ("nonzero", text(bz["_K"])) if bz is not None else ("as given",)
+        src = bz["_M"] if bz is not None else e
+        if not isinstance(src, ast.Name):
+            return None
+        defs = [d for d in defs_reaching(fn, src.id, rets[0][0])]
+        convs = []
+        for d in defs:
+            if d.kind == "param":
+                convs.append("as given")
+            elif d.value is not None and pmatch(f"Vector.fast({P_}, _T)", d.value) is not None:
+                convs.append(text(pmatch(f"Vector.fast({P_}, _T)", d.value)["_T"]))
+            elif d.value is not None and pmatch("Vector.fast(__, __)", d.value) is not None:
+                convs.append(text(d.value).replace(P_, "X"))
+            else:
+                return None
+        rec["in_type"] = sorted(set(convs))
+        checks = []
+        for n in body_nodes(fn.node):
+            if isinstance(n, ast.Raise):
+                for k, t in facts_at(fn, n):
+                    if "len(" in t:
+                        checks.append((k, t.replace(src.id, "X").replace(f"self.{size_attr}", "self.SIZE")))
+        rec["length_check"] = sorted(checks)
+        return rec
+    n_tw = 0
+    for kind in ("boolean", "integer"):
+        fr = repo.functions.get(f"{DF}._parse_rows_from_{kind}")
+        fc = repo.functions.get(f"{DF}._parse_cols_from_{kind}")
+        if fr is None or fc is None:
+            continue
+        n_tw += 1
+        rr, rc = _record(fr, "nrow"), _record(fc, "ncol")
+        if rr is None or rc is None:
+            ctx.note(f"SIB-parse: the {kind} position parsers are written in a form the record extractor does not read; not compared")
+            continue
+        ok = rr == rc
+        ctx.ob("SIB-parse", fc, f"_parse_cols_from_{kind} {rc} == _parse_rows_from_{kind} {rr}", fc.node, ok,
+               "column positions are parsed exactly like row positions (same length check, same conversion)" if ok else
+               f"_parse_cols_from_{kind} no longer mirrors _parse_rows_from_{kind}: a boolean/integer column selector is checked or "
+               f"converted differently from a row selector", clause="slice/slice_off keep/drop exactly the given positions")
+    ctx.count("row/column parser twins", n_tw, 2)
     from .shared import state_read
     k = state_read(ctx, [repo.fn(f"{DF}.{m}") for m in ("filter", "filter_out", "slice", "slice_off", "head", "tail",
                                                          "drop_na", "sample", "unique")],
